@@ -120,6 +120,8 @@ impl BBSplusPoKSignature {
         let mut m_cap: Vec<Scalar> = Vec::new();
 
         for chunk in bytes[240..].chunks_exact(32) {
+            #[cfg(zkryptium_verif)]
+            crate::verif_hooks::tick("PoKSignature::from_bytes");
             m_cap.push(
                 Scalar::from_bytes_be(chunk)
                     .map_err(|_| Error::InvalidProofOfKnowledgeSignature)?,
@@ -972,6 +974,8 @@ impl BBSplusZKPoK {
         let mut m_cap: Vec<Scalar> = Vec::new();
 
         for chunk in bytes[32..].chunks_exact(32) {
+            #[cfg(zkryptium_verif)]
+            crate::verif_hooks::tick("ZKPoK::from_bytes");
             let b =
                 <[u8; 32]>::try_from(chunk).map_err(|_| Error::InvalidProofOfKnowledgeSignature)?;
             m_cap.push(Scalar::from_bytes_be(&b)?);
